@@ -602,3 +602,18 @@ pub fn spawn_with_mailbox_capacity<T: Actor + 'static>(
 
     (actor_ref, join_handle)
 }
+
+/// Verification accessor (compiled only with `--cfg rsactor_verif`): read-only snapshot of
+/// the wait-for graph as `(caller_id, callee_id)` pairs.
+#[cfg(all(rsactor_verif, feature = "deadlock-detection"))]
+#[doc(hidden)]
+pub fn __verif_wait_for_edges() -> Vec<(u64, u64)> {
+    match wait_for_graph().lock() {
+        Ok(graph) => graph.iter().map(|(k, v)| (*k, v.id)).collect(),
+        Err(poisoned) => poisoned
+            .into_inner()
+            .iter()
+            .map(|(k, v)| (*k, v.id))
+            .collect(),
+    }
+}
